@@ -803,7 +803,7 @@ def _find_eval_env(s, fr, skip):
         if "__ptera_resolver__" in glb:
             return glb["__ptera_resolver__"]
         name = glb["__name__"]
-        if all(not name.startswith(pfx) for pfx in skip):
+        if all(name != pfx and not name.startswith(pfx + ".") for pfx in skip):
             return DictPile(fr.f_locals, glb, __builtins__)
         fr = fr.f_back
     raise AssertionError("Unreachable outside ptera.")  # pragma: no cover
